@@ -25,6 +25,11 @@ mod store;
 
 pub use builder::ServerBuilder;
 pub use error::UnresolvableRoute;
+/// Verification hooks (only with `--cfg swimos_verif`): the server task with pluggable networking / store.
+#[cfg(swimos_verif)]
+pub use self::runtime::{SwimServer, Transport};
+#[cfg(swimos_verif)]
+pub use self::store::in_memory::InMemoryPersistence;
 use tokio::sync::{mpsc, oneshot};
 
 use crate::error::ServerError;
